@@ -1,0 +1,50 @@
+//go:build verif
+
+package influxql
+
+import (
+	"sync"
+	"sync/atomic"
+)
+
+// Instrumentation for the verification harness in /verif. Compiled only with
+// `-tags verif`; verif_stub.go provides the no-op versions otherwise.
+
+var verifDelivered sync.Map // *reader -> *int64: runes delivered by read(), including pushed-back ones re-delivered
+
+// verifOnRead counts a rune physically delivered into the reader's ring.
+func verifOnRead(r *reader) {
+	v, ok := verifDelivered.Load(r)
+	if !ok {
+		v, _ = verifDelivered.LoadOrStore(r, new(int64))
+	}
+	atomic.AddInt64(v.(*int64), 1)
+}
+
+// verifAssertReaderPushback panics when the rune pushback depth exceeds the ring:
+// curr() with n pushed-back runes addresses slot i-n, which is only the rune
+// read n reads ago while n < len(buf).
+func verifAssertReaderPushback(r *reader) {
+	if r.n >= len(r.buf) {
+		panic("verif: rune pushback depth exceeds the reader's ring")
+	}
+}
+
+// verifAssertTokenPushback panics when the token pushback depth exceeds the ring.
+func verifAssertTokenPushback(s *bufScanner) {
+	if s.n >= len(s.buf) {
+		panic("verif: token pushback depth exceeds the scanner's ring")
+	}
+}
+
+// VerifConsumed reports how many runes the scanner has consumed net of pushback.
+func (s *Scanner) VerifConsumed() int {
+	v, ok := verifDelivered.Load(s.r)
+	if !ok {
+		return -s.r.n
+	}
+	return int(atomic.LoadInt64(v.(*int64))) - s.r.n
+}
+
+// VerifScanner exposes the parser's underlying scanner.
+func (p *Parser) VerifScanner() *Scanner { return p.s.s }
